@@ -65,7 +65,7 @@ def run(ctx):
                             f_ = dict(f_, resolved=late)
                     cid = (f_.get("resolved") or {}).get("id") if (f_.get("resolved") or {}).get("local") else (f_.get("id") if f_.get("local") else None)
                     cb_ = c.body(cid) if cid else None
-                    if cb_ is not None and dd < depth and cb_.id.startswith("conjure_codegen::context::") and cb_.d.get("vis") != "pub" and cb_.id != b0.id:
+                    if cb_ is not None and dd < depth and cb_.id.startswith("conjure_codegen::context::") and cb_.id != b0.id:
                         work_.append((cb_, dd + 1))
                     # generic helpers instantiated at ArgumentDefinition reach its trait impls
                     if cb_ is None and f_.get("trait", "").startswith("conjure_codegen::") and dd < depth:
@@ -413,6 +413,9 @@ def check_tables(ctx, F, c, I, tb):
                             if isinstance(e, dict) and e.get("n") == "log_safety":
                                 hit = True
                         x = x[1]
+                # ... or, whatever route the reference took (a work list of `&RefCell`s built up front), a cell of the safety type
+                if not hit and any(tystr(x_).startswith(OPT + "<" + LS) for x_ in t["call"].get("substs", [])) and len(t["args"]) >= 2:
+                    hit = True
                 if hit:
                     cell_writers.append((b, bb, "T", {"ln": t["ln"], "r": {"use": t["args"][1]}, "d": 0}))
     ctx.check(len(cell_writers) >= 1, "R8.3", nb.loc(), "memo|writer-exists", "no store into the named-type safety cell found (anchor lost)", nontrivial=False)
@@ -433,6 +436,44 @@ def check_tables(ctx, F, c, I, tb):
             ctx.check(stable, "R8.3", b.loc(s["ln"]), f"{b.path}|fixpoint-loop",
                       f"{b.path}: the computed safety is stored outside a repeat-until-stable loop (a flag set next to the store must decide whether the evaluation is repeated): inner types would keep values computed from not-yet-final neighbours",
                       instance=f"{b.path}: store inside a loop repeated while something changed")
+    # ---------------- R8.7 the repeat-until-stable iteration settles
+    # The per-type rule is not monotone (R8.2: an object's fold stops at the first field of unknown safety, so lowering a neighbour
+    # can move an object back up from unsafe to unknown).  Storing every *changed* value (`new != old`) can then cycle for ever for
+    # a recursive definition — generation hangs (witness: union T2 [optional<set<T4>>]; object T4 {f0: T5, f1: set<enum> UNSAFE,
+    # f2: string}; object T5 {f0: set<T2>}, evaluated in that order).  A store guarded by a strict comparison of a finite rank
+    # (a type is only ever lowered) settles after at most 3 stores per type.  Other guards: no verdict.
+    # (a hang is a failure of generation — property C03 — not a wrong safety decision: the clause is recorded only when this
+    # module is run on behalf of C03, which includes it as R3.11)
+    for b, bb, j, s in (cell_writers if ctx.pid == "C03" else []):
+        if reaches(c, b, b.id):
+            continue
+        eb_ = b
+        cfgb = CFG(eb_)
+        verdict, how = None, ""
+        for sbb, allowed, allv in dt.edge_conditions(cfgb, bb):
+            atom = dt.switch_atom(eb_, sbb)
+            if atom[0] == "call" and atom[1]["call"]["def"] in ("core::cmp::PartialEq::ne", "core::cmp::PartialEq::eq") and any(LS in tystr(x_) for x_ in atom[1]["call"].get("substs", [])):
+                verdict, how = False, "the store is guarded by `new != old` (any change, up or down)"
+            if atom[0] == "bin" and atom[1] in ("Lt", "Gt", "Le", "Ge"):
+                ra, rb = dt.resolve_copy(eb_, atom[2]), dt.resolve_copy(eb_, atom[3])
+                fa = ra[1][2]["call"].get("id") if ra[0] == "def" and ra[1][1] == "T" else None
+                fb = rb[1][2]["call"].get("id") if rb[0] == "def" and rb[1][1] == "T" else None
+                rk = c.body(fa) if fa and fa == fb else None
+                if rk is not None and atom[1] in ("Lt", "Gt") and (rk.local_ty(0) or {}).get("prim") in ("u8", "u16", "u32", "u64", "usize", "i8", "i16", "i32", "i64", "isize"):
+                    # the rank function maps into finitely many integers (constants only)
+                    consts = {dt.resolve_copy(rk, {"cp": 0})[0]} if False else set()
+                    for _, _, s2 in rk.stmts():
+                        if place_local(s2["d"]) == 0 and "use" in s2["r"] and isinstance(s2["r"]["use"].get("c"), dict) and "int" in s2["r"]["use"]["c"]:
+                            consts.add(s2["r"]["use"]["c"]["int"])
+                    if consts and len(consts) <= 8:
+                        verdict, how = True, f"the store is guarded by a strict comparison of {rk.name}(new) with {rk.name}(old) ({len(consts)} ranks)"
+        if verdict is None:
+            ctx.note(f"R8.7 {b.path}: the guard of the memo store is neither `new != old` nor a strict rank comparison; termination of the iteration is not decided here")
+        else:
+            ctx.check(verdict, "R8.7", b.loc(s["ln"]), f"{b.path}|fixpoint-settles",
+                      f"{b.path}: {how}; the per-type rule is not monotone (the object fold stops at the first unknown field), so the iteration can cycle for ever and code generation hangs — "
+                      "e.g. union T2 [optional<set<T4>>], object T4 {f0: T5, f1: set<enum> UNSAFE, f2: string}, object T5 {f0: set<T2>}; a type must only ever be lowered (safe > unknown > unsafe > do-not-log)",
+                      instance=f"{b.path}: {how}")
     # readers do not compute
     return
 
